@@ -40,6 +40,8 @@ inductive Op
   | truncate (n : Nat)
   | dropPart                  -- drop one outstanding part of the current allocation
   | dropPinned                -- drop the last part of the oldest pinned allocation
+  | dropOld                   -- drop a part of a pinned allocation that still has other parts
+  | splitOffTail              -- split_off(len): the spare capacity becomes a part
   | unsplitLast (n cap : Nat) -- unsplit a part that is contiguous with the end of the main handle
   | roundTrip                 -- freeze() the main handle and convert back (try_into_mut / Into<BytesMut>)
   deriving Repr, DecidableEq, Inhabited
@@ -87,16 +89,25 @@ def step (r : Rec) : Op → Rec
   | .truncate n => if n ≤ r.len then { r with len := n } else r
   | .dropPart => { r with parts := r.parts - 1 }
   | .dropPinned => { r with pinned := r.pinned.dropLast }
+  | .dropOld => r
+  | .splitOffTail =>
+    let r' := promote r
+    { r' with cap := r'.len, parts := r'.parts + 1 }
   | .unsplitLast n c =>
     if r.parts = 0 ∨ r.len ≠ r.cap then r
     else { r with len := r.len + n, cap := r.cap + c, parts := r.parts - 1 }
   | .roundTrip =>
-    if r.parts ≠ 0 then r
+    if r.parts ≠ 0 then
+      -- not unique: `BytesMut::from(Bytes)` copies the view into a fresh exact-size vector and releases its reference
+      { r with A := r.len, off := 0, cap := r.len, arc := false, orig := origRepr r.len, parts := 0,
+               pinned := r.A :: r.pinned, allocs := if r.len = 0 then r.allocs else r.allocs + 1 }
     else if !r.arc then
       -- freeze of KIND_VEC: promotable when len = cap (the tail is forgotten), else Shared{cap};
       -- converting back restores a KIND_VEC handle
       if r.len = r.cap then r else { r with orig := origRepr r.A }
-    else r
+    else
+      -- unique frozen BytesMut: `shared_v_to_mut` hands back everything behind the offset
+      { r with cap := r.A - r.off }
 
 /-- live heap bytes: the current allocation plus the pinned ones -/
 def live (r : Rec) : Nat := r.A + r.pinned.sum
